@@ -1,0 +1,13 @@
+//go:build verif
+
+package redis
+
+// VerifPoint is called at the instrumented schedule points (verification
+// builds only). A blocking callback turns a point into a scheduler gate.
+var VerifPoint func(point string, arg any)
+
+func verifPoint(point string, arg any) {
+	if f := VerifPoint; f != nil {
+		f(point, arg)
+	}
+}
